@@ -186,6 +186,26 @@ Proof. exact treigen_minimiser. Qed.
    root, convergence itself is not proved; in binary64 the loop can stall -- finding F2c, witness above); the eigh contract itself
    (numpy is an oracle: the harness measures V^T V = I, A = V diag(sig) V^T and the ordering on the logged output of every run);
    binary64 rounding (the theorem is over R; the harness compares per branch within stated tolerances).  Two defects remain open (F2b, F2c). *)
+(* supporting the patches PROPOSED (not applied) for the two open findings:
+   F2b -- the case A = 0 excluded above: the model is then s.b and -Delta*b/|b| (what the proposed early return yields) minimises it over the ball;
+   F2c -- every admissible multiplier (lam >= 0, sig_0 + lam > 0) gives a minimiser over the ball of its own radius, so a secular loop that
+          stops on an iteration cap or when the Newton correction no longer changes lam still returns a step that is optimal for the radius reached. *)
+Theorem C06_zero_hessian_linear_minimiser : forall n (b s : list R) Delta, len n b -> len n s -> 0 < Delta -> 0 < b ⋅ b ->
+  s ⋅ s <= Delta * Delta ->
+  let p := rscale (- Delta / sqrt (b ⋅ b)) b in
+  p ⋅ p = Delta * Delta /\ energyR (fun v => rzero v) b p <= energyR (fun v => rzero v) b s.
+Proof. exact linear_model_minimiser. Qed.
+Theorem C06_treigen_shifted_step_optimal : forall k (A : list R -> list R) (sig : list R) (V : list (list R)) (b : list R),
+  let n := S k in let Vt := @transpose_n R NumR n V in
+  len n sig -> (forall row, In row V -> len n row) -> length V = n -> len n b ->
+  (forall y, len n y -> @matvec R NumR Vt (@matvec R NumR V y) = y) ->
+  (forall x, len n x -> @matvec R NumR V (@matvec R NumR Vt x) = x) ->
+  (forall x, len n x -> A x = @matvec R NumR V (@vmul R NumR sig (@matvec R NumR Vt x))) ->
+  (forall x, In x sig -> hd 0 sig <= x) ->
+  forall lam, 0 <= lam -> 0 < hd 0 sig + lam ->
+  let p := rneg (@matvec R NumR V (@vdiv R NumR (@matvec R NumR Vt b) (@vshift R NumR lam sig))) in
+  len n p /\ forall s, len n s -> s ⋅ s <= p ⋅ p -> energyR A b p <= energyR A b s.
+Proof. exact shifted_step_optimal. Qed.
 Example C06_treigen_nonvacuous :
   let sig := [2] in let V := [[1]] in let b := [4] in
   let A := fun x : list R => @matvec R NumR V (@vmul R NumR sig (@matvec R NumR (@transpose_n R NumR 1 V) x)) in
